@@ -41,7 +41,8 @@ PROBES = ["coin_credited", "coin_at_cap", "coin_crosses_cap", "tier_bonus", "tie
           "redundant_enable_free", "toggle_to_free", "toggle_to_credit", "coin_in_free_play", "free_game",
           "slam_tilt", "credits_reset", "earnings_reset", "reboot_kept", "reboot_dropped", "ops_same_iteration",
           "start_pair_same_iteration", "expiry_during_game", "coin_during_game", "boot_free_then_credit",
-          "game_without_player"]
+          "game_without_player", "player_adding_held", "start_while_adding_released", "decimal_config",
+          "inexact_float_quotient"]
 REAL = ["mpf.modes.credits.code.credits.Credits", "mpf.modes.game.code.game.Game", "mpf.modes.attract.code.attract.Attract",
         "mpf.core.machine_vars.MachineVariables", "mpf.core.settings_controller.SettingsController",
         "mpf.core.switch_controller.SwitchController", "mpf.core.events.EventManager", "mpf.core.delays.DelayManager",
@@ -53,9 +54,20 @@ STUBS = ["event loop (SimLoop: virtual time, stalls, tie order)", "clock (SimClo
 ASSUMPTIONS = ["call_soon FIFO order is kept (asyncio guarantees it)",
                "time does not advance inside one loop iteration; lateness only through injected stalls",
                "switch handlers run synchronously inside process_switch (true for handlers without ms)",
-               "prices and coin values are dyadic rationals (exact in binary floating point)"]
+               "amounts are decimals with at most 2 places; the reference ledger uses the exact decimal "
+               "(Fraction of the config string), never the float; audit sums are compared within 1e-6"]
 STATE_ABSTRACTION = "(balance bucket, free play, game active, players, last op kind)"
 TECHNIQUE = "deterministic simulation, config swarm, reference ledger in exact fractions"
+
+def money(x):
+    """A float sum of money as kept by the SUT's audits, without binary noise (0.30000000000000004 -> 3/10)."""
+    return F(x).limit_denominator(100000)
+
+
+def D(x):
+    """Exact value of a configured amount: the decimal the operator wrote (0.3 is 3/10, not the float)."""
+    return F(str(x))
+
 
 COIN_SW = ["s_left_coin", "s_center_coin", "s_right_coin"]
 SETTING_PRICES = [0.25, 0.5, 0.75, 1.0, 2.0]
@@ -69,16 +81,62 @@ REL_DT = [(0.0, 5), (0.001, 1), (0.05, 3), (1.0, 3), (30.0, 1), (600.0, 1), (899
 # plan
 
 
+def _gen_cfg_decimal(ch):
+    """Dime / nickel based configurations: prices and tier prices whose float quotient by the unit is inexact."""
+    nickel = ch.flag("cfg.nickel", 0.35)
+    if nickel:
+        cents = ch.pick("cfg.dprice", [15, 35, 30, 60, 70, 45, 55, 25, 120])
+        coinset = [5, 10, 25, 50, 100]
+        first = 5
+    else:
+        cents = ch.pick("cfg.dprice", [30, 60, 70, 120, 20, 40, 90, 140, 50])
+        coinset = [10, 20, 50, 100, 200]
+        first = ch.weighted("cfg.dcoin0", [(10, 4), (20, 1)])
+    ncoin = 1 + ch.weighted("cfg.ncoin", [(2, 3), (1, 2), (0, 1)])
+    coins = []
+    for i in range(ncoin):
+        v = first if i == 0 else ch.pick("cfg.coinval", coinset)
+        coins.append({"sw": COIN_SW[i], "value": v / 100.0,
+                      "type": ch.weighted("cfg.cointype", [("money", 3), ("token", 1)]),
+                      "label": ch.weighted("cfg.label", [(None, 2), ("Slot %d" % i, 1), ("Door", 1)])})
+    tiers = [[cents / 100.0, 1]]
+    ntier = ch.weighted("cfg.ntier", [(2, 4), (1, 3), (3, 2)])
+    if ntier >= 2:
+        k = ch.pick("cfg.t2k", [2, 3, 4, 5, 8])
+        c2 = k + ch.weighted("cfg.t2bonus", [(1, 3), (0, 1), (2, 1)])
+        p2 = cents * k
+        tiers.append([p2 / 100.0, c2])
+        if ntier >= 3:
+            k3 = ch.pick("cfg.t3k", [2, 3])
+            p3 = p2 * k3
+            c3 = c2 * k3 + ch.weighted("cfg.t3bonus", [(1, 3), (0, 1), (3, 1)])
+            tiers.append([p3 / 100.0, c3])
+    return cents / 100.0, coins, tiers
+
+
 def _gen_cfg(ch):
-    odd = ch.flag("cfg.odd", 0.05)
-    if odd:
+    cfg = _gen_cfg_inner(ch)
+    # a handler holds the player_adding queue event (a mode that plays an intro for every new player);
+    # it is released after hold_dt, optionally together with a start press in the same callback
+    cfg["hold"] = ch.weighted("cfg.hold", [("none", 5), ("added", 3), ("all", 1)])
+    cfg["hold_dt"] = ch.weighted("cfg.hold_dt", [(0.0, 2), (0.05, 2), (1.0, 1)])
+    cfg["release_press"] = ch.weighted("cfg.release_press", [("after", 3), ("none", 2), ("before", 1)])
+    return cfg
+
+
+def _gen_cfg_inner(ch):
+    decimal = ch.flag("cfg.decimal", 0.25)
+    odd = (not decimal) and ch.flag("cfg.odd", 0.05)
+    if decimal:
+        price, coins, tiers = _gen_cfg_decimal(ch)
+    elif odd:
         price = ch.pick("cfg.price_odd", [1.25, 2.5, 2.0, 0.75, 5.0, 1.5])
         vals = [0.5, 1.0, 2.0, 5.0]
     else:
         price = ch.weighted("cfg.price", [(0.5, 4), (0.25, 2), (0.75, 2), (1.0, 2), (2.0, 1)])
         vals = [0.25, 0.5, 1.0, 2.0]
-    ncoin = 1 + ch.weighted("cfg.ncoin", [(2, 3), (1, 2), (0, 1)])
-    coins = []
+    ncoin = 0 if decimal else 1 + ch.weighted("cfg.ncoin", [(2, 3), (1, 2), (0, 1)])
+    coins = coins if decimal else []
     for i in range(ncoin):
         if i == 0 and not odd:
             v = ch.weighted("cfg.coin0", [(0.25, 4), (0.5, 2), (1.0, 2), (2.0, 0.5)])
@@ -87,8 +145,9 @@ def _gen_cfg(ch):
         coins.append({"sw": COIN_SW[i], "value": v,
                       "type": ch.weighted("cfg.cointype", [("money", 3), ("token", 1)]),
                       "label": ch.weighted("cfg.label", [(None, 2), ("Slot %d" % i, 1), ("Door", 1)])})
-    tiers = [[price, 1]]
-    ntier = ch.weighted("cfg.ntier", [(1, 4), (2, 4), (3, 2)])
+    if not decimal:
+        tiers = [[price, 1]]
+    ntier = 0 if decimal else ch.weighted("cfg.ntier", [(1, 4), (2, 4), (3, 2)])
     if ntier >= 2:
         p2 = price * ch.pick("cfg.t2k", [2, 3, 4, 5, 8])
         if ch.flag("cfg.t2round", 0.3):
@@ -176,7 +235,7 @@ def plan(ch, tier):
 
 
 def _gcd_unit(cfg):
-    vals = [F(cfg["price"])] + [F(c["value"]) for c in cfg["coins"]] + [F(t[0]) for t in cfg["tiers"]]
+    vals = [D(cfg["price"])] + [D(c["value"]) for c in cfg["coins"]] + [D(t[0]) for t in cfg["tiers"]]
     den = 1
     for v in vals:
         den = den * v.denominator // math.gcd(den, v.denominator)
@@ -187,7 +246,7 @@ def _gcd_unit(cfg):
 
 
 def _half_award_ok(cfg):
-    q = F(cfg["price"]) / _gcd_unit(cfg)
+    q = D(cfg["price"]) / _gcd_unit(cfg)
     return q.denominator == 1 and int(q) % 2 == 0
 
 
@@ -258,8 +317,8 @@ class Ledger:
     """Balance in credits (exact), tier progress candidates, expiry deadline candidates, audits."""
 
     def __init__(self, cfg):
-        self.P = F(cfg["price"])
-        self.tiers = [(F(p), int(c)) for p, c in cfg["tiers"]]
+        self.P = D(cfg["price"])
+        self.tiers = [(D(p), int(c)) for p, c in cfg["tiers"]]
         self.top = self.tiers[-1][0]
         self.M = int(cfg["max_credits"])
         self.T = {"full": cfg["exp_full_ms"] / 1000.0, "frac": cfg["exp_frac_ms"] / 1000.0}
@@ -417,7 +476,16 @@ class World:
         ev.add_handler("mode_game_started", self.h_game_started, priority=hi)
         ev.add_handler("mode_game_stopped", self.h_game_stopped, priority=lo)
         ev.add_handler("ball_starting", self.h_ball_starting, priority=hi)
+        self.held = []
+        if self.cfg.get("hold", "none") != "none":
+            ev.add_handler("player_adding", self.h_hold_adding, priority=1)
         ctx.log("boot", self.units(), self.upg(), self.sut_free(), t=sim.now)
+        amounts = [self.L.P] + [tp for tp, _ in self.L.tiers] + [D(c["value"]) for c in self.cfg["coins"]]
+        if any(a.denominator not in (1, 2, 4) for a in amounts):
+            ctx.probe("decimal_config")
+            g = _gcd_unit(self.cfg)
+            if any(float(a) / float(g) != a / g for a in amounts):
+                ctx.probe("inexact_float_quotient")
         if not self.sut_free():
             self.check_units_sane("boot")
         else:
@@ -438,22 +506,40 @@ class World:
                    "credit play is active (%s) but credit_unit=%r credit_units_per_game=%r: price %s is not charged and "
                    "a coin divides by zero" % (where, unit, upg, L.P))
             raise Discard("cannot continue without units")
-        if F(unit) * upg != L.P:
+        if D(unit) * upg != L.P:
             self.V("unit_conversion", "price not a whole number of units",
                    "price %s but credit_unit=%s x units_per_game=%s = %s (coins %s)"
-                   % (L.P, unit, upg, F(unit) * upg, [c["value"] for c in self.cfg["coins"]]))
+                   % (L.P, unit, upg, D(unit) * upg, [c["value"] for c in self.cfg["coins"]]))
             raise Discard("units wrong")
         for c in self.cfg["coins"]:
-            if (F(c["value"]) / F(unit)).denominator != 1:
+            if (D(c["value"]) / D(unit)).denominator != 1:
                 self.V("unit_conversion", "coin not a whole number of units",
                        "coin %s is not a multiple of credit_unit %s (price %s, coins %s)"
                        % (c["value"], unit, L.P, [x["value"] for x in self.cfg["coins"]]))
                 raise Discard("units wrong")
         for p, _ in L.tiers:
-            if (p / F(unit)).denominator != 1:
+            if (p / D(unit)).denominator != 1:
                 self.V("unit_conversion", "tier price not a whole number of units",
                        "tier price %s is not a multiple of credit_unit %s" % (p, unit))
                 raise Discard("units wrong")
+        if len(L.tiers) > 1:
+            # the table the SUT adds bonuses from must be the pricing table of the config, in units
+            u = D(unit)
+            wrap = int(L.top / u)
+            exp = {}
+            prev = F(0)
+            for k in range(wrap + 1):
+                bonus = L.f(k * u) * upg - k
+                exp[k] = int(bonus - prev)
+                prev = bonus
+            got = dict(cr.pricing_table)
+            if got != exp or cr.pricing_tiers_wrap_around != wrap:
+                trunc = any(int(float(tp) / unit) != tp / u for tp, _ in L.tiers)
+                self.V("pricing_table", "tier price truncated by float division" if trunc else "table differs",
+                       "pricing tiers %s with credit_unit %s: bonus table %s (wrap %s), the config says %s (wrap %s)"
+                       % (self.cfg["tiers"], unit, {k: v for k, v in sorted(got.items()) if v},
+                          cr.pricing_tiers_wrap_around, {k: v for k, v in sorted(exp.items()) if v}, wrap))
+                raise Discard("pricing table wrong")
 
     # -- observers --------------------------------------------------------------------------------
     def on_posted(self, t, name, kw):
@@ -578,6 +664,31 @@ class World:
             else:
                 L.dl[kind] = {now + L.T[kind]}
 
+    def h_hold_adding(self, queue=None, number=0, **kwargs):
+        """Workload, not observer: some mode holds the player_adding queue (an intro for every new player)."""
+        if queue is None or (self.cfg["hold"] == "added" and number < 2):
+            return
+        queue.wait()
+        self.held.append(queue)
+        self.ctx.probe("player_adding_held")
+        self.ctx.log("hold_adding", number, t=self.sim.now)
+        self.sim.after(self.cfg["hold_dt"], self.release_held, self.sim)
+
+    def release_held(self, sim):
+        if sim is not self.sim or not self.held:
+            return
+        queue = self.held.pop(0)
+        how = self.cfg["release_press"]
+        self.ctx.log("release_adding", how, str(self.L.B), t=self.sim.now)
+        if how == "before":
+            self.press_start()
+        queue.clear()
+        if how == "after":
+            # the start button is pressed in the very moment the queue is released: the resumed queue task
+            # posts player_added behind the pending sw_start
+            self.ctx.probe("start_while_adding_released")
+            self.press_start()
+
     def h_ball_starting(self, **kwargs):
         self.L.S = self.L.S | {F(0)}
 
@@ -615,12 +726,14 @@ class World:
             L.B = self.expect_balance({L.B}, "deduction", "free play", "player added in free play")
             return
         self.ctx.probe("player_deducted")
-        if L.B == 0 and appr["cleared"] and not appr["gain"]:
-            # relaxation (linearisable): the request was granted with a full price available, then all credits
-            # were cleared (slam tilt / reset / expiry) before the player was charged; the end state equals
-            # "charge, then clear"
+        if L.B < 1 and appr["cleared"]:
+            # relaxation: the request was granted with a full price available, then all credits were cleared
+            # (slam tilt / reset / expiry) before the player was charged.  With nothing inserted since, the end
+            # state equals "charge, then clear" (linearisable); money inserted after the clear is taken for the
+            # player whose own credit was wiped - the statement does not order a clear against a granted request
             self.ctx.probe("cleared_between_approval_and_add")
             L.B = self.expect_balance({F(0)}, "deduction", "after clear", "player added after a clear")
+            self.check_strings()
             L.paid += 1
             self.check_paid()
             return
@@ -723,8 +836,8 @@ class World:
         e = self.cr.earnings
         typ, label = key
         if label is None:
-            return [e.get("1 Total Coins " + typ, 0), F(e.get("2 Total Earnings " + typ, 0))]
-        return [e.get("%s Coins %s" % (label, typ), 0), F(e.get("%s Earnings %s" % (label, typ), 0))]
+            return [e.get("1 Total Coins " + typ, 0), money(e.get("2 Total Earnings " + typ, 0))]
+        return [e.get("%s Coins %s" % (label, typ), 0), money(e.get("%s Earnings %s" % (label, typ), 0))]
 
     def read_award(self, akey):
         return self.cr.earnings.get(akey, 0)
@@ -835,7 +948,7 @@ class World:
         L = self.L
         sim = self.sim
         c = self.cfg["coins"][i]
-        v = F(c["value"])
+        v = D(c["value"])
         now = sim.now
         keys = [(c["type"], None)] + ([(c["type"], c["label"])] if c["label"] else [])
         for k in keys:
